@@ -62,6 +62,34 @@ impl Observer for Failing {
     fn fsync_done(&self, _fd: i32, _ok: bool) {}
 }
 
+/// every write of a record into the data area fails, for ever; journal, marker and metadata writes and
+/// fsyncs work: batches fail, their scrub succeeds, nothing poisons the device -- the retryable kind
+/// of failure that the final flush of a drop keeps retrying (a bounded number of times)
+struct Stubborn;
+/// failing record writes still to come (the drop arms a bounded number: enough for two dozen
+/// retries of the final flush, few enough to finish in a fraction of a second)
+static STUBBORN_LEFT: AtomicU64 = AtomicU64::new(u64::MAX);
+impl Observer for Stubborn {
+    fn write(&self, _fd: i32, o: u64, d: &[u8], _r: bool) -> Decision {
+        if o >= 16 * 4096 && d.len() >= 2 && d[0] == 0xCD && d[1] == 0xAB {
+            let left = STUBBORN_LEFT.load(Ordering::SeqCst);
+            if left == 0 {
+                return Decision::Proceed;
+            }
+            if left != u64::MAX {
+                STUBBORN_LEFT.fetch_sub(1, Ordering::SeqCst);
+            }
+            Decision::FailBefore
+        } else {
+            Decision::Proceed
+        }
+    }
+    fn fsync(&self, _fd: i32) -> Decision {
+        Decision::Proceed
+    }
+    fn fsync_done(&self, _fd: i32, _ok: bool) {}
+}
+
 pub fn termchild(opts: &Opts) -> i32 {
     let scenario = opts.str("scenario", "flushers");
     let seed = opts.u64("seed", 1);
@@ -75,6 +103,10 @@ pub fn termchild(opts: &Opts) -> i32 {
         "full" => rng.range(24, 40),
         _ => rng.range(256, 2048),
     };
+    if scenario == "stubborn" {
+        feoxdb::verif::dev::set_force_sync_path(true);
+        feoxdb::verif::dev::install(Some(Arc::new(Stubborn)));
+    }
     if scenario == "failing" {
         feoxdb::verif::dev::set_force_sync_path(rng.chance(1, 2));
         feoxdb::verif::dev::install(Some(Arc::new(Failing { from: rng.range(5, 200), n: AtomicU64::new(0) })));
@@ -177,6 +209,9 @@ pub fn termchild(opts: &Opts) -> i32 {
     // shutdown with work pending: the drop must come back
     let _ = beat.call(nthreads, "insert-before-drop", || store.insert(b"tk-last", &vec![b'z'; 5000]));
     let store = Arc::try_unwrap(store).ok();
+    if scenario == "stubborn" {
+        STUBBORN_LEFT.store(600, Ordering::SeqCst);
+    }
     beat.call(nthreads, "drop", || drop(store));
     println!("done calls={}", beat.calls.load(Ordering::Relaxed));
     use std::io::Write;
@@ -199,7 +234,7 @@ pub fn run(opts: &Opts) -> i32 {
             let mut rng = Rng::new(seed.wrapping_mul(131_071).wrapping_add(sh));
             let mut calls = 0u64;
             for i in 0..n {
-                let scenario = ["flushers", "full", "failing", "sweeper", "mixed", "ttlchain"][((sh + i) % 6) as usize];
+                let scenario = ["flushers", "full", "failing", "sweeper", "mixed", "ttlchain", "stubborn"][((sh + i) % 7) as usize];
                 let cseed = rng.next() % 1_000_000_007;
                 let line = run_child(
                     &["termchild".into(), format!("scenario={scenario}"), format!("seed={cseed}"), format!("path={dir}/dev/t{sh}.feox")],
